@@ -3,7 +3,7 @@
 HERE="$(cd "$(dirname "$0")/.." && pwd)"
 cd "$HERE" || exit 2
 ./tools/bootstrap.sh || { echo "bootstrap failed"; exit 2; }
-export PYTHONPATH="$HERE:/repo/src"
+export PYTHONPATH="$HERE:${VERIF_REPO:-/repo}/src"
 export FINAM_VERIF=1
 export OMP_NUM_THREADS=1 OPENBLAS_NUM_THREADS=1 MKL_NUM_THREADS=1
 export PYTHONDONTWRITEBYTECODE=1
